@@ -259,4 +259,18 @@ theorem reachable_induction {P : Params} {r : Role} {Inv : State → Prop} (h0 :
     | none => simp [hs] at hr
     | some s' => rw [hs] at hr; exact ih s' (hstep s0 e s' h hs) s1 hr
 
+/-- fact: both muxers' `Listener(id, doneCh)` build a NEW listener on every call and register it under `id`, replacing
+whatever was registered before (no look-up that hands an earlier listener — with its earlier, possibly closed, `doneCh` —
+out again) -/
+structure ListenerParams where
+  listenerReplaces : Bool
+  deriving DecidableEq, Repr
+
+def ListenerParams.Good (L : ListenerParams) : Prop := L.listenerReplaces = true
+instance (L : ListenerParams) : Decidable L.Good := by unfold ListenerParams.Good; exact inferInstance
+
+/-- an ID is accepted again after its earlier listener was closed (`earlierClosed`): is the listener that `Accept` hands
+out this time one whose `Accept()` can block for a stream (`true`), or the earlier one, which returns EOF at once? -/
+def reacceptUsable (L : ListenerParams) (earlierClosed : Bool) : Bool := L.listenerReplaces || !earlierClosed
+
 end GoPlugin.GrpcMux
